@@ -5,7 +5,7 @@ from rules import anchors, common
 
 CLAIMED = True
 TECHNIQUE = "static analysis over type-checked MIR: CFG reachability from the Response switch arms (chain interpreter), loop-exit analysis for error isolation, single handler site per error, comparison normal form of the threshold filter"
-LEVEL_TEXT = """Static, all-paths decision of: (F1) the chain interpreter in the per-appender delivery function: from the switch on Filter::filter's Response the Accept arm reaches Append::append without another filter call, the Reject arm cannot reach Append::append and returns Ok, the Neutral arm returns to the iterator step, exhaustion reaches Append::append; (F2) filters are iterated forward over the stored vector and builders append in call order; (F3) in the node's delivery loop the only loop exit is iterator exhaustion and the Err arm records the error and continues; (F4) Log::log calls the error handler at exactly one site, once per item of the returned error vector; (F5) ThresholdFilter::filter returns Reject exactly on record_level > threshold and Neutral otherwise (never Accept). User-supplied filters/appenders are not decided."""
+LEVEL_TEXT = """Static, all-paths decision of: (F1) the chain interpreter in the per-appender delivery function: from the switch on Filter::filter's Response the Accept arm reaches Append::append without another filter call, the Reject arm cannot reach Append::append and returns Ok, the Neutral arm returns to the iterator step, exhaustion reaches Append::append; (F2) filters are iterated forward over the stored vector and builders append in call order; (F3) in the node's delivery loop the only loop exit is iterator exhaustion and the Err arm records the error and continues; (F4) Log::log calls the error handler at exactly one site, once per item of the returned error vector; (F5) ThresholdFilter::filter returns Reject exactly on record_level > threshold and Neutral otherwise (never Accept). User-supplied filters/appenders are not decided. (F2, cont.) no call anywhere in the crate sorts, reverses, removes from or otherwise reorders a list of filters in place."""
 LEVEL_NOTE = "Trusted: rustc MIR/callee resolution; Vec/slice iterators yield elements in order. Decides the interpreter's control-flow shape for every chain at once; behaviour of user components is outside."
 EXPLANATION = """Decided: F1 chain interpreter arms, F2 declaration order, F3 error isolation, F4 once per error, F5 threshold comparator. Undecided: behaviour of user-supplied Filter/Append implementations."""
 DECIDED = ["F1 Accept/Reject/Neutral arms", "F2 forward iteration, push order", "F3 loop exits only by exhaustion", "F4 one handler call per error", "F5 record_level > threshold => Reject else Neutral", "F6 a fresh filter list per appender in the lossy loader", "F7 a log::Log used as an appender is handed every admitted record"]
@@ -90,6 +90,8 @@ def rule_log_adapter(ctx, p, cfg, rid="F7"):
 def run_cfg(ctx, p, cfg):
     rule_log_adapter(ctx, p, cfg, "F7")
     from rules import c01
+    from rules import c15
+    c15.rule_one_snapshot(ctx, p, cfg, "F9")   # "handed to the configured error handler": the handler belongs to the snapshot that made the delivery, not to a later load (C15.A1 re-evaluated)
     c01.rule_index_table(ctx, p, cfg, "F8")   # "decided per appender by its own chain": the position a logger holds names the appender it was attached to (C01.R8 re-evaluated)
     if "config_parsing" in p.meta.get("features", []):
         from rules import c14
@@ -223,6 +225,23 @@ def run_cfg(ctx, p, cfg):
             fe = [v for n, v in e[3] if n == ffs[0]] if ffs else []
             okk = bool(fe) and not any(x[0] == "call" and x[1].rsplit("::", 1)[-1] in ("rev", "reverse", "sort", "filter", "skip", "take") for x in walk(fe[0]))
             r.require(okk, "filters-moved-unchanged:%s" % f.path, fn=f, detail="filters field built from %s" % (show(fe[0], 5) if fe else None))
+        # ... and nothing anywhere in the crate reorders or thins a list of filters in place (a sort that "puts the cheap ones first" changes
+        # which filter's Accept/Reject is reached first)
+        touched, seen = [], 0
+        for path, f in sorted(p.fns.items()):
+            for c in f.calls():
+                tys = c.t.get("arg_tys") or []
+                if not tys or "dyn filter::Filter" not in tys[0] or "HashMap" in tys[0]:
+                    continue
+                m = (c.callee or "").rsplit("::", 1)[-1]
+                seen += 1
+                if m in REORDERERS or m.startswith("sort") or m.startswith("rotate") or m.startswith("dedup") or m.startswith("select_nth"):
+                    touched.append((f, c))
+        r.floor("filter-list-calls-seen", seen, 3)
+        r.require(not touched, "no-in-place-reordering", fn=(touched[0][0] if touched else None), site=(touched[0][1].at if touched else None),
+                  detail="calls on a list of filters seen: %d, none of them reorders or removes" % seen,
+                  fail_detail="%s calls %s on a list of filters: the chain no longer runs in declaration order (or loses a filter), so a different filter's Accept or Reject ends it" % (
+                      touched[0][0].path if touched else "", touched[0][1].callee if touched else ""))
 
     rule_error_isolation(ctx, p, cfg, "F3")
 
@@ -301,6 +320,7 @@ def run_cfg(ctx, p, cfg):
         r.require("Accept" not in allv and all(e[0] == "agg" for b, e in rets), "never-accepts", fn=f, detail="returned variants: %s" % sorted(allv))
 
 
+REORDERERS = ("reverse", "swap", "insert", "swap_remove", "remove", "retain", "retain_mut", "truncate", "pop", "drain", "clear", "split_off", "extract_if", "set_len", "push_front", "make_ascending_by", "partition_dedup")
 SHRINKERS = ("dedup", "dedup_by", "dedup_by_key", "retain", "retain_mut", "truncate", "pop", "remove", "swap_remove", "clear", "drain", "split_off", "extract_if", "set_len")
 ITER_DROPPERS = ("filter", "skip", "take", "step_by", "skip_while", "take_while", "dedup", "last", "nth")
 
